@@ -105,6 +105,48 @@ class OsProxy:
         return attr
 
 
+class FileProxy:
+    """A file opened for reading by the package: a scheduling point AFTER every read, so that another
+    thread can run between reading a chunk and using it."""
+    def __init__(self, f, hooks, name):
+        self._f, self._h, self._n = f, hooks, name
+
+    def read(self, *a):
+        r = self._f.read(*a)
+        self._h.before("obs", "file.read", (self._n,))
+        return r
+
+    def readinto(self, b):
+        r = self._f.readinto(b)
+        self._h.before("obs", "file.readinto", (self._n,))
+        return r
+
+    def __enter__(self):
+        self._f.__enter__()
+        return self
+
+    def __exit__(self, *a):
+        return self._f.__exit__(*a)
+
+    def __iter__(self):
+        return iter(self._f)
+
+    def __getattr__(self, name):
+        return getattr(self._f, name)
+
+
+def open_proxy(hooks):
+    import builtins
+    real_open = builtins.open
+
+    def _open(file, mode="r", *a, **k):
+        f = real_open(file, mode, *a, **k)
+        if "r" in mode and "b" in mode and hooks.sched is not None:
+            return FileProxy(f, hooks, file if isinstance(file, str) else "")
+        return f
+    return _open
+
+
 class FailingWriter:
     def __init__(self, f):
         self._f = f
@@ -190,6 +232,9 @@ class ThreadingProxy:
 _saved = {}
 
 
+_ABSENT = object()
+
+
 def install(hooks):
     for mn in PKG_MODULES:
         m = sys.modules.get(mn)
@@ -197,6 +242,8 @@ def install(hooks):
             __import__(mn)
             m = sys.modules[mn]
         _saved[mn] = {n: getattr(m, n) for n in ("os", "threading", "gzip") if hasattr(m, n)}
+        _saved[mn]["open"] = m.__dict__.get("open", _ABSENT)
+        m.open = open_proxy(hooks)
         if hasattr(m, "os"):
             m.os = OsProxy(hooks)
         if hasattr(m, "threading"):
@@ -211,7 +258,11 @@ def uninstall():
         if m is None:
             continue
         for n, v in names.items():
-            setattr(m, n, v)
+            if v is _ABSENT:
+                if n in m.__dict__:
+                    delattr(m, n)
+            else:
+                setattr(m, n, v)
     _saved.clear()
 
 
